@@ -189,6 +189,7 @@ def run_family(pid, tier, runs, models, rule, assumptions, shards=16, merge=Fals
         ["TLC and the TLA+ Json/IOUtils modules", "events are emitted under one mutex (file order = real-time order); a response is logged at Send entry",
          "quiescence is established by the driver with two awaited sentinel updates per target through the FIFO queues (no timing assumption); bound 10 s",
          "one writer goroutine per target (as in the collector); schedules are sampled with seeded delays at the hook points, not enumerated",
+         "within a scenario a path holds either plain leaves or atomic containers (a queued leaf handle whose leaf changed kind in place is outside the stream properties)",
          "metadata and sentinel leaves are subject to the ACL rule only; no path-level origins (DESIGN note N1)"] + assumptions,
         time.time() - t0, len(outcome.violations), merge=merge)
     vlib.cleanup(pid + ("-sub" if merge else ""))
